@@ -532,3 +532,68 @@ def check_transpose_exhaustive(ctx: Ctx, tables: Tables, ev: IntEval) -> None:
               construct="transposed key has the wrong tonic", message=f"(key, interval, result): {bad_tonic[:4]}", file=fi.file, node=fi.node)
     ctx.check(not bad_comp, "VS-KEY", "transpositions compose additively (up to enharmonic spelling)", function=fi.qualname,
               construct="transpose_key is not additive", message=f"{bad_comp[:4]}", file=fi.file, node=fi.node)
+
+
+MUTATORS = {"pop", "popitem", "clear", "update", "setdefault", "append", "extend", "insert", "remove", "sort", "reverse", "__setitem__", "__delitem__"}
+
+
+def check_tables_immutable(ctx: Ctx, rule: str = "IMMUT") -> int:
+    """The lookup tables are class-level objects shared by every call: no function of the library may change them
+    (a `pop` with a default instead of a `get` makes the result of transpose_key depend on the call history)."""
+    import ast as _ast
+    p = ctx.p
+    # class-level table attributes: Assign of a literal container in a class body
+    tables = set()
+    for ci in p.classes.values():
+        for st in ci.node.body:
+            if isinstance(st, _ast.Assign) and len(st.targets) == 1 and isinstance(st.targets[0], _ast.Name) \
+                    and (isinstance(st.value, (_ast.Dict, _ast.List, _ast.Set, _ast.Tuple))
+                         or (isinstance(st.value, _ast.Call) and isinstance(st.value.func, _ast.Name) and st.value.func.id in ("dict", "list", "set"))):
+                # an attribute that every instance re-creates in __init__ is per-instance state, not a shared table
+                init = ci.methods.get("__init__")
+                shadowed = init is not None and any(isinstance(a, _ast.Assign) and any(attr_chain(t) == ["self", st.targets[0].id] for t in a.targets)
+                                                    for a in _ast.walk(init.node))
+                if not shadowed:
+                    tables.add((ci.name, st.targets[0].id))
+    ctx.floor("class-level lookup tables", len(tables), 5)
+    n_sites = 0
+    bad = []
+    for fi in p.all_functions():
+        aliases = {}
+        for a in _ast.walk(fi.node):
+            if isinstance(a, _ast.Assign) and isinstance(a.targets[0], _ast.Name):
+                ch = attr_chain(a.value)
+                if ch and len(ch) == 2 and (ch[0], ch[1]) in tables:
+                    aliases[a.targets[0].id] = ".".join(ch)
+
+        def table_of(e):
+            while isinstance(e, _ast.Subscript):
+                e = e.value
+            ch = attr_chain(e) if isinstance(e, _ast.Attribute) else None
+            if ch and len(ch) == 2 and (ch[0], ch[1]) in tables:
+                return ".".join(ch)
+            if ch and len(ch) == 2 and ch[0] in ("self", "cls") and fi.cls and (fi.cls, ch[1]) in tables:
+                return f"{fi.cls}.{ch[1]}"
+            if isinstance(e, _ast.Name) and e.id in aliases:
+                return aliases[e.id]
+            return None
+        for n in _ast.walk(fi.node):
+            if isinstance(n, _ast.Call) and isinstance(n.func, _ast.Attribute):
+                t = table_of(n.func.value)
+                if t is not None:
+                    n_sites += 1
+                    if n.func.attr in MUTATORS:
+                        bad.append((fi, n, t, f".{n.func.attr}()"))
+            elif isinstance(n, (_ast.Assign, _ast.AugAssign, _ast.Delete)):
+                tg = n.targets if isinstance(n, (_ast.Assign, _ast.Delete)) else [n.target]
+                for t_ in tg:
+                    if isinstance(t_, _ast.Subscript):
+                        t = table_of(t_.value)
+                        if t is not None:
+                            bad.append((fi, n, t, "item store / delete"))
+    ctx.check(not bad, rule, f"no function writes to a class-level lookup table ({len(tables)} tables, {n_sites} method calls on them inspected)",
+              function=bad[0][0].qualname if bad else "MusicMapping",
+              construct=f"{bad[0][2]} is modified at run time ({bad[0][3]})" if bad else "ok",
+              message=f"`{short(bad[0][1], 90)}` changes a table shared by all calls: later results depend on the call history" if bad else "",
+              file=bad[0][0].file if bad else next(iter(p.sources)), node=bad[0][1] if bad else None)
+    return len(tables)
